@@ -1,6 +1,7 @@
 package c15
 
 import (
+	"errors"
 	"fmt"
 	"regexp"
 	"runtime/debug"
@@ -10,6 +11,7 @@ import (
 // caught describes a panic of the code under test.
 type caught struct {
 	Msg   string // fmt.Sprint of the recovered value
+	Root  string // when the value is an error: the message of the innermost wrapped error (its class)
 	Stack string // debug.Stack() taken inside the deferred recover (contains the panicking frames)
 }
 
@@ -19,6 +21,19 @@ func catchStack(f func() error) (err error, c *caught) {
 	defer func() {
 		if rec := recover(); rec != nil {
 			c = &caught{Msg: fmt.Sprint(rec), Stack: string(debug.Stack())}
+			if e, ok := rec.(error); ok {
+				root := e
+				for i := 0; i < 20; i++ {
+					u := errors.Unwrap(root)
+					if u == nil {
+						break
+					}
+					root = u
+				}
+				if root != e {
+					c.Root = root.Error()
+				}
+			}
 		}
 	}()
 	return f(), nil
@@ -130,7 +145,11 @@ func repoFrames(stack string, n int) []string {
 // class of the message. The same root cause always gives the same key; a new
 // panic site gives a new key.
 func sigKey(scope string, c *caught) string {
-	return scope + "/" + topFrame(c.Stack) + "/" + msgClass(c.Msg)
+	m := c.Msg
+	if c.Root != "" {
+		m = c.Root // panic(err) with a wrapped error: the registered root error names the class, the wrapping text carries values
+	}
+	return scope + "/" + topFrame(c.Stack) + "/" + msgClass(m)
 }
 
 // fatalFromStderr extracts (message, stack) from the stderr of a child that
